@@ -144,6 +144,8 @@ impl Server {
         )?;
         grammar_config.update_cfg(cfg);
         let grammar_config = grammar_config.clone();
+        #[cfg(feature = "verif_hooks")]
+        use crate::verif_hooks::gate as thread;
         thread::spawn(move || match grammar_config.grammar_type {
             GrammarType::LLK => {
                 if let Err(err) = calculate_lookahead_dfas(&grammar_config, max_k) {
